@@ -32,6 +32,8 @@ pub enum Rw {
     CommentLine(String),
     /// letter case of one token class: 0 lower, 1 UPPER, 2 Capitalised, 3 aLtErNaTiNg
     Case(Cls, u8),
+    /// both at once: the case rewriting and an appended comment
+    CaseAndComment(Cls, u8, String),
 }
 
 #[derive(Clone, Debug, Serialize, Deserialize)]
@@ -113,6 +115,7 @@ fn rewrite_text(ts: &[T], rw: &Rw) -> String {
         Rw::Comment(c) => format!("{} # {}", corpus::render(ts, &conv), c),
         Rw::CommentLine(c) => format!("# {}\n{}", c, corpus::render(ts, &conv)),
         Rw::Case(cls, how) => corpus::render(&apply_case(ts, *cls, *how), &conv),
+        Rw::CaseAndComment(cls, how, c) => format!("{} # {}", corpus::render(&apply_case(ts, *cls, *how), &conv), c),
     }
 }
 
@@ -163,6 +166,24 @@ impl Prop for C16 {
                         return None;
                     }
                     Some(Case::Rewrite(ts, Rw::Case(cls, how)))
+                },
+            ));
+        }
+        {
+            let lines = lines.clone();
+            f.push(Family::new(
+                "case-and-comment",
+                Mode::Full,
+                "corpus lines x token class x (lower, UPPER, Capitalised) combined with an appended comment from [c, yıl sonu, kasım, ŉ x, İstanbul, ǅ] - characters whose upper- or lower-case form has another byte length, which must not disturb the case handling of the keywords in front of them",
+                move |ch| {
+                    let (_, ts) = ch.pick(&lines).clone();
+                    let cls = *ch.pick(&[Cls::Cur, Cls::Month, Cls::Zone, Cls::Kw, Cls::All]);
+                    let how = ch.choose(3) as u8;
+                    if !has_class(&ts, cls) {
+                        return None;
+                    }
+                    let c = *ch.pick(&["c", "yıl sonu", "kasım", "ŉ x", "İstanbul", "ǅ"]);
+                    Some(Case::Rewrite(ts, Rw::CaseAndComment(cls, how, c.to_string())))
                 },
             ));
         }
